@@ -329,6 +329,41 @@ def break_documents():
                 f'<div style="break-before:{v2}"><div><p>{b}</p></div></div>')
         yield (f'brk-blocks-{v1}-{v2}', page(html, 200, 400),
                [(['auto', v1, 'auto', v2, 'auto', 'auto'], ida, idb)])
+    # other spellings of the same values: 'always' and the page-break-* aliases (css-break-3 section 3.4)
+    spellings = [('break-{}', 'always', 'page'), ('page-break-{}', 'always', 'page'), ('page-break-{}', 'left', 'left'),
+                 ('page-break-{}', 'right', 'right'), ('page-break-{}', 'avoid', 'avoid'), ('page-break-{}', 'auto', 'auto')]
+    for (prop, written, meaning), side in itertools.product(spellings, ('after', 'before')):
+        decl = f'{prop.format(side)}:{written}'
+        values = [meaning, 'auto'] if side == 'after' else ['auto', meaning]
+        tag = f'{prop.format(side)}-{written}'
+        # table rows
+        w = Words()
+        rows, cells = [], []
+        for i in range(4):
+            text, ids = words(w)
+            cells.append(ids)
+            style = decl if (side == 'after' and i == 1) or (side == 'before' and i == 2) else ''
+            rows.append(f'<tr style="{style}"><td>{text}</td></tr>')
+        yield (f'brk-alias-rows-{tag}', page(f'<p>{words(w)[0]}</p><table>{"".join(rows)}</table>', 200, 400),
+               [(values, cells[1], cells[2])])
+        # row groups
+        w = Words()
+        a, ida = words(w)
+        b, idb = words(w)
+        s1 = decl if side == 'after' else ''
+        s2 = decl if side == 'before' else ''
+        html = (f'<table><tbody style="{s1}"><tr><td>{a}</td></tr></tbody>'
+                f'<tbody style="{s2}"><tr><td>{b}</td></tr></tbody></table>')
+        chain = ['auto', meaning, 'auto', 'auto'] if side == 'after' else ['auto', 'auto', meaning, 'auto']
+        yield f'brk-alias-groups-{tag}', page(html, 200, 400), [(chain, ida, idb)]
+        # blocks, nested last / first child
+        w = Words()
+        x, _ = words(w)
+        a, ida = words(w)
+        b, idb = words(w)
+        html = (f'<p>{x}</p><div><p style="{s1}">{a}</p></div><div><p style="{s2}">{b}</p></div>')
+        chain = [meaning, 'auto', 'auto', 'auto'] if side == 'after' else ['auto', 'auto', 'auto', meaning]
+        yield f'brk-alias-blocks-{tag}', page(html, 200, 400), [(chain, ida, idb)]
 
 
 def avoid_documents():
@@ -411,6 +446,19 @@ def avoid_documents():
             style = f'break-inside:{value}' if i == at else ''
             items.append(f'<li style="{style}">{"<br>".join(t for t, _ in texts)}</li>')
         yield (f'avoid-in-li-{value}-r{at}-H{height}', page(f'<ul>{"".join(items)}</ul>', 200, height), [], inside)
+        # a float is content: after a float at the top of the page, an avoid-inside block that does not fit under it
+        # goes to the next page whole (it is not the first content of the page)
+        for kind in ('float', 'nested'):
+            w = Words()
+            flo = '<br>'.join(w.take(1, 'oof', ('float',))[0] for _ in range(at))
+            texts = [w.take(1) for _ in range(5)]
+            ids = [x for _, t in texts for x in t]
+            lines = '<br>'.join(t for t, _ in texts)
+            block = (f'<div style="break-inside:{value}">{lines}</div>' if kind == 'float'
+                     else f'<div style="break-inside:{value}"><div><p>{lines}</p></div></div>')
+            yield (f'avoid-after-float-{kind}-{value}-f{at}-H{height}',
+                   page(f'<div style="float:left;width:100%">{flo}</div>{block}<p>{w.take(1)[0]}</p>', 200,
+                        max(height, 50)), [], [(value, ids)])
         w = Words()
         pre = ''.join(f'<p>{w.take(1)[0]}</p>' for _ in range(at))
         texts = [w.take(1) for _ in range(3)]
@@ -455,3 +503,41 @@ def totality_documents():
     # page geometry: margins larger than the page, zero-size pages
     for w, h, m in itertools.product((1, 10, 200), (1, 10, 100), (0, 5, 60)):
         yield f'tot-page-{w}x{h}-m{m}', page('<p>a b c</p><p>d</p>', w, h, margin=m)
+    # grid placement: every way of writing a line or a span, larger than the explicit grid, auto-placed or not
+    placements = ['auto', '1', '3', '-1', 'span 1', 'span 3', 'span 5', 'a', 'span a']
+    for start, end, axis, flow in itertools.product(placements, placements, ('column', 'row'), ('row', 'column dense')):
+        if start.startswith('span') and end.startswith('span'):
+            continue
+        item = f'<div style="grid-{axis}-start:{start};grid-{axis}-end:{end}">x</div>'
+        css = f'display:grid;grid-template-columns:[a] 10px [a] 10px;grid-auto-flow:{flow};width:60px'
+        yield (f'tot-gridplace-{axis}-{start}-{end}-{flow}'.replace(' ', '_'),
+               page(f'<div style="{css}"><div>p</div>{item}<div>q</div></div>', 200, 100))
+    # form controls with and without the pdf_forms option (appearance written at PDF time)
+    controls = [
+        '<select></select>', '<select><option>a<option selected>b</select>', '<select multiple></select>',
+        '<select multiple><option>a<option>b</select>', '<input>', '<input value="v">', '<input type=checkbox>',
+        '<input type=checkbox checked>', '<input type=radio name=r>', '<input type=submit value=s>',
+        '<input type=password value=p>', '<input type=number value=3>', '<input type=hidden>', '<textarea></textarea>',
+        '<textarea>t\nu</textarea>', '<button>b</button>', '<input type=file>', '<input maxlength=0 value=x>',
+        '<input type=text style="font-size:0">', '<select style="width:0"><option>a</select>',
+    ]
+    for index, control in enumerate(controls):
+        for forms in (False, True):
+            for wrap in ('<form>{}</form>', '<p>{}</p>'):
+                yield (f'tot-form-{index}-f{int(forms)}-{wrap[1]}',
+                       page(wrap.format(control) + '<p>x</p>', 200, 100), {'pdf_forms': forms})
+    # CSS functions with every small number of arguments, in the properties that accept them: invalid uses must be
+    # dropped with a warning
+    functions = ['string', 'element', 'counter', 'counters', 'attr', 'target-counter', 'target-counters', 'target-text',
+                 'leader', 'url', 'var', 'content', 'running', 'symbols', 'linear-gradient', 'calc', 'env', 'image-set']
+    arguments = ['', ' ', 'x', 'x, y', 'x, y, z', 'x y', ',', 'x,', '"s"', '"s", x', '1', '1, 2', 'x, "s", y, z']
+    properties = ['content', 'string-set', 'bookmark-label', 'position', 'list-style-type', 'background-image',
+                  'width', 'counter-reset', 'quotes']
+    for fi, function in enumerate(functions):
+        for ai, args in enumerate(arguments):
+            decls = ';'.join(f'{prop}: {function}({args})' if prop != 'string-set' else f'{prop}: s {function}({args})'
+                             for prop in properties)
+            yield (f'tot-cssfn-{function}-a{ai}',
+                   f'<html><head><style>@page{{size:200px 100px;margin:10px;@top-left{{content:{function}({args})}}}}'
+                   f'p::before{{{decls}}} p{{{decls}}}</style></head><body><p id=x>a</p><a href="#x">l</a></body>'
+                   f'</html>')
